@@ -15,7 +15,7 @@ from lemoncheesecake.testtree import BaseTest, BaseSuite
 from lemoncheesecake.suite import Test
 from lemoncheesecake.exceptions import UserError
 
-_NEGATION_FLAGS = "-^~"
+_NEGATION_FLAGS = ("-", "^", "~")
 
 
 def _iter_grepable(steps):
@@ -69,7 +69,7 @@ class BaseTreeNodeFilter(Filter):
         values = [value or "" for value in values]  # convert None to ""
 
         for pattern in patterns:
-            if pattern[0] in _NEGATION_FLAGS:
+            if pattern.startswith(_NEGATION_FLAGS):
                 if not fnmatch.filter(values, pattern[1:]):
                     return True
             else:
@@ -84,7 +84,7 @@ class BaseTreeNodeFilter(Filter):
 
         for key, value in patterns:
             if key in key_values:
-                if value[0] in _NEGATION_FLAGS:
+                if value.startswith(_NEGATION_FLAGS):
                     if not fnmatch.fnmatch(key_values[key], value[1:]):
                         return True
                 else:
